@@ -176,10 +176,10 @@ Definition shape_plan (v : variant) (s : shape) : list act :=
   | ShRead => if v IrrBuiltinRead then read_checked else read_pinned
   end.
 
-(* builtin ids of front/libmath.h: pow = 7, read = 12, assertf = 22 *)
+(* builtin ids: regenerated from front/libmath.h into Gen/Opcodes.v (pow = 7, read = 12, assertf = 22) *)
 Definition builtin_shape (id : Z) : shape :=
-  if (id =? 7) || (id =? 22) then ShPopTop
-  else if id =? 12 then ShRead
+  if (id =? lib_math_pow) || (id =? lib_math_assertf) then ShPopTop
+  else if id =? lib_math_read then ShRead
   else ShTop.
 
 (* The opcode table.  `delta` = (sp after) - (sp before) as observed; it is used only where
@@ -301,7 +301,7 @@ Definition irregular_of (i : rinstr) : option irregular :=
   | BYTECODE_DUP => Some IrrDup
   | BYTECODE_ALLOC => Some IrrAlloc
   | BYTECODE_RECORD_UNPACK => Some IrrRecordUnpack
-  | BYTECODE_BUILD_IN => if r_w0 i =? 12 then Some IrrBuiltinRead else None
+  | BYTECODE_BUILD_IN => if r_w0 i =? lib_math_read then Some IrrBuiltinRead else None
   | _ => None
   end.
 
